@@ -55,6 +55,28 @@ func chanOrigins(w *core.World, v ssa.Value) []ssa.Value {
 				if fv, ok := u.X.(*ssa.FreeVar); ok {
 					o = fv // load through a by-reference capture
 				}
+				if fa, ok := u.X.(*ssa.FieldAddr); ok {
+					// field of a struct that a goroutine started with 'go x.f(...)' / 'go f(x, ...)' is handed: what the
+					// function that starts it stored into that field of its local variable
+					if p, isP := fa.X.(*ssa.Parameter); isP {
+						pf := p.Parent()
+						found := false
+						for _, sp := range goSitesOf(w, pf) {
+							for i, q := range pf.Params {
+								if q != p || i >= len(sp.Call.Args) {
+									continue
+								}
+								for _, sv := range core.LocalFieldStores(sp.Call.Args[i], fa.Field) {
+									found = true
+									rec(sv, d+1)
+								}
+							}
+						}
+						if found {
+							continue
+						}
+					}
+				}
 			}
 			switch x := o.(type) {
 			case *ssa.Parameter:
